@@ -509,6 +509,7 @@ func usesTimeCompare(info *types.Info, e ast.Expr) bool {
 }
 
 func runC03(p *Prog, r *Report) {
+	p.KeepCalls = map[string]bool{"ss2022.SaltPool.insert": true, "ss2022.SaltPool.pruneExpired": true}
 	r.Explanation = "Structural necessary conditions of 'a handshake is accepted at most once while its timestamp is acceptable', decided on the type-checked source of package ss2022: (R1) the acceptance window extracted from the timestamp predicate is covered by the salt retention extracted from the pool; (R2) the pool is modified only by authenticated, timestamp-validated requests, with the one clock reading used for both; (R3) check-and-insert is one write-locked critical section and every pool field access is under the pool lock."
 	r.NotDecided = []string{"behaviour against a real clock (no clock is run)", "list/map consistency of the pool beyond locking and the prune guard", "cryptographic authentication strength"}
 	r.Assumptions = []string{"time.Time.Add/After/Before/Unix and sync.RWMutex behave as documented", "HandleStream is the only server entry that consults the pool (checked by who-may-call within the loaded packages)"}
@@ -741,7 +742,7 @@ func c03R2(p *Prog, r *Report) {
 		}
 	}
 	// TryContains: no writes
-	tc := p.Func("ss2022", "SaltPool", "TryContains")
+	tc := p.Inlined(p.Func("ss2022", "SaltPool", "TryContains"))
 	writes := 0
 	for _, fa := range tc.FieldAccesses(mp("ss2022"), "SaltPool", nil) {
 		if fa.Write {
@@ -796,6 +797,7 @@ func c03R3(p *Prog, r *Report) {
 	pkg := p.Pkg("ss2022")
 	fields := map[string]bool{"nodeBySalt": true, "head": true, "tail": true}
 	n := 0
+	poolHelpers := inferHelperLockStates(p, &guardSpec{PkgRel: "ss2022", OwnerType: "SaltPool", MuField: "mu"})
 	p.AllFuncs(pkg, func(fc *FuncCtx) {
 		acc := fc.FieldAccesses(mp("ss2022"), "SaltPool", fields)
 		if len(acc) == 0 {
@@ -803,9 +805,12 @@ func c03R3(p *Prog, r *Report) {
 		}
 		recv := fc.RecvObj()
 		isPoolMethod := fc.Obj != nil && recv != nil && namedTypeName(recv.Type()) == "SaltPool"
+		// unexported pool methods inherit the weakest lock state found at their call sites
 		entry := LUnlocked
-		if isPoolMethod && (fc.Obj.Name() == "insert" || fc.Obj.Name() == "pruneExpired") {
-			entry = LWrite // requires-lock helpers: callers checked in R2 (only Add) and below
+		if isPoolMethod {
+			if st, ok := poolHelpers[fc.Obj.Name()]; ok {
+				entry = st
+			}
 		}
 		var muKey string
 		if isPoolMethod {
@@ -827,7 +832,7 @@ func c03R3(p *Prog, r *Report) {
 		}
 	})
 	// Add: one critical section
-	add := p.Func("ss2022", "SaltPool", "Add")
+	add := p.Inlined(p.Func("ss2022", "SaltPool", "Add"))
 	recv := add.RecvObj()
 	muKey := fmt.Sprintf("%p.mu", recv)
 	states := add.LockStates(muKey, LUnlocked)
@@ -888,7 +893,10 @@ func c03R3(p *Prog, r *Report) {
 				continue
 			}
 			var edges []Edge
-			for _, e := range add.TestEdges(func(x ast.Expr) bool { return objOf(add.Info(), x) == okObj }, WantFalse) {
+			for _, e := range add.TestEdges(func(x ast.Expr) bool {
+				// the test may be on a copy of the comma-ok result (a helper's return value)
+				return objOf(add.Info(), x) == okObj || objOf(add.Info(), add.Resolve(x)) == okObj
+			}, WantFalse) {
 				if add.SoleDef(e.From, okObj, v.ID) {
 					edges = append(edges, e)
 				}
